@@ -585,7 +585,11 @@ func (r *CheckRun) replayNative(cr *CaseReport, v Violation) (string, string) {
 		out = status
 	}
 	if !replayConfirms(out, v) {
-		os.Remove(path)
+		if os.Getenv("GOSYM_KEEP") != "" {
+			os.Rename(path, path+".mismatch")
+		} else {
+			os.Remove(path)
+		}
 	}
 	return out, path
 }
